@@ -23,4 +23,92 @@ var propSpecs = map[string]PropSpec{
 		Symbolic:   []string{"every byte of the registered path, group prefix and request path"},
 		Enumerated: []string{"string lengths (case split)", "StrictLastSlash on/off", "grouped / not grouped"},
 	},
+	"C01": {
+		ID: "C01",
+		Harnesses: []HarnessSpec{
+			{Pkg: "rux", Name: "verifHarness_C01_select", Quick: map[string]int{"L": 7}, Thorough: map[string]int{"L": 10},
+				NCfgQ: 25, Covers: []string{"C01 route selected", "C01 no route"}},
+			{Pkg: "rux", Name: "verifHarness_C01_select", Quick: map[string]int{"L": 7}, Thorough: map[string]int{"L": 9},
+				CfgBase: 25, NCfgQ: 25 * 25, SampleQ: 280},
+			{Pkg: "rux", Name: "verifHarness_C01_select", Quick: map[string]int{"L": 6}, Thorough: map[string]int{"L": 8},
+				CfgBase: 25 + 25*25, NCfgQ: 25 * 25 * 25, SampleQ: 60, SampleT: 2500},
+		},
+		Assumptions: []string{
+			"oracle = pattern grammar translated independently of rux (harness spec.go: verifSpecParse) + Go regexp membership; winner = static exact match, then dynamic routes with a complete literal first segment followed by '/', then the others, registration order inside each group; HEAD falls back to GET",
+			"request path is in normal form (leading '/', no second leading '/', no trailing '/', last byte in 0x21..0x7f or >= 0xb0); other spellings are C11's",
+			"request method is one of GET, POST, HEAD, DELETE or the foreign token BREW (forked); route method sets from a family of six",
+			"byte-level regexp encoding is exact for subjects with invalid/multi-byte UTF-8 only for character classes under * or +; patterns that apply a non-ASCII-capable class once restrict the path to ASCII (recorded as out-of-bound paths)",
+		},
+		Bounds:     map[string]string{"L": "request path length 1..7 quick / 1..10 thorough, all 256 byte values", "T": "pool of 25 patterns x 6 method sets: quick = all 25 one-route tables, a seeded sample of 280 of the 625 two-route tables and 60 three-route tables; thorough = all one- and two-route tables and a seeded sample of 2500 three-route tables", "U": "instruction budget 20M per path; regexp parse enumeration <= 3000 parses"},
+		Symbolic:   []string{"every byte of the request path"},
+		Enumerated: []string{"route tables (pattern pool x method-set family)", "request method (5 values)", "path length"},
+	},
+	"C02": {
+		ID: "C02",
+		Harnesses: []HarnessSpec{
+			{Pkg: "rux", Name: "verifHarness_C02_params", Quick: map[string]int{"L": 8}, Thorough: map[string]int{"L": 11},
+				NCfgQ: 56, Covers: []string{"C02 dynamic match", "C02 no match", "C02 static", "C02 repeat on caching router"}},
+		},
+		Assumptions: []string{
+			"statement checked directly on every path that returns a dynamic route: key set == variable names; some presence choice of the optional tail makes pattern[values] == path byte for byte with absent variables empty; every present value is in its variable's regex language (Go regexp membership formula on the value bytes)",
+			"the regexp submatch split is the engine's exact leftmost-first enumeration of parses of the compiled pattern (regexp/syntax tree), forked with priority guards",
+			"request path in normal form (see C01); method GET; one route per table",
+			"parameters as returned by QuickMatch; the copy into Context.Params is covered by the dispatch harnesses (C10)",
+		},
+		Bounds:     map[string]string{"L": "path length 1..8 quick / 1..11 thorough, all byte values", "T": "28 patterns (1-3 variables, default/global/custom regexes, optional tails, catch-all .+) x cache off/on"},
+		Symbolic:   []string{"every byte of the request path"},
+		Enumerated: []string{"pattern", "cache on/off", "path length"},
+	},
+	"C07": {
+		ID: "C07",
+		Harnesses: []HarnessSpec{
+			{Pkg: "rux", Name: "verifHarness_C07_twin", Quick: map[string]int{"L": 5, "K": 2}, Thorough: map[string]int{"L": 6, "K": 3},
+				NCfgQ: 12, SampleQ: 6, Covers: []string{"C07 answer served from the cache"}},
+		},
+		Assumptions: []string{
+			"twin routers built by the same registration program, caching off vs CachingWithNum(0..2); same request history on both; answers compared observationally (route name, path, methods, middleware count, parameter map contents, allowed-method set)",
+			"all request paths of one history have the same (forked) length and independent symbolic bytes, so 'same path again' (hit) and 'another path' (miss/eviction) are solver cases",
+			"handlers treat Params as read-only; registration finished before the first request",
+		},
+		Bounds:     map[string]string{"K": "history length 2 quick / 3 thorough", "L": "path length 1..5 / 1..6", "cap": "cache capacity 0,1,2", "T": "12 tables (6 sampled per quick run) x HandleMethodNotAllowed on/off x methods GET/HEAD/POST per request"},
+		Symbolic:   []string{"every byte of every request path"},
+		Enumerated: []string{"table", "capacity", "option", "request methods", "path length"},
+	},
+	"C13": {
+		ID: "C13",
+		Harnesses: []HarnessSpec{
+			{Pkg: "rux", Name: "verifHarness_C13_methodName", Quick: map[string]int{"L": 6}, Thorough: map[string]int{"L": 8},
+				Covers: []string{"C13 method accepted", "C13 method rejected"}},
+			{Pkg: "rux", Name: "verifHarness_C13_varRegex", Quick: map[string]int{"L": 5}, Thorough: map[string]int{"L": 7},
+				Covers: []string{"C13 regex accepted", "C13 regex rejected"}},
+			{Pkg: "rux", Name: "verifHarness_C13_invalidRejected", NCfgQ: 14, Covers: []string{"C13 invalid definition tried"}},
+			{Pkg: "rux", Name: "verifHarness_C13_lookupTotal", Quick: map[string]int{"L": 4}, Thorough: map[string]int{"L": 6},
+				NCfgQ: 16 * 19, SampleQ: 40, NCfgT: 16 * (1 + 18 + 18*18), SampleT: 400, Covers: []string{"C13 lookup tried"}},
+		},
+		Assumptions: []string{
+			"method-name harness: ASCII bytes (strings.ToUpper on non-ASCII is outside the byte-level encoding)",
+			"variable-regex harness drives Route.goodRegexString directly with a symbolic regex text over the alphabet ( ) ? : \\ d + x [ ] P <; spec of 'capturing group' = unescaped '(' outside a class not followed by '?' or followed by '?P' / '?<'",
+			"whether a concrete pattern compiles is decided by the native regexp.Compile (registration inputs of the catalogue are concrete)",
+			"lookup harness calls QuickMatch with an arbitrary method string (0..4 bytes, or GET/HEAD/POST) and an arbitrary path string",
+		},
+		Bounds:     map[string]string{"L": "method name 0..6/8 bytes; regex text 0..5/7 bytes; request path 0..4/6 bytes, all byte values", "T": "catalogue of 14 invalid definitions; 18 'odd but accepted' patterns, tables of 0..2 of them x 16 option sets (sampled)"},
+		Symbolic:   []string{"method-name bytes", "variable-regex bytes", "request method bytes", "request path bytes"},
+		Enumerated: []string{"invalid-definition catalogue", "tables", "option sets"},
+	},
+	"C14": {
+		ID: "C14",
+		Harnesses: []HarnessSpec{
+			{Pkg: "rux", Name: "verifHarness_C14_lruStep", Covers: []string{"C14 set", "C14 get hit", "C14 delete hit"}},
+			{Pkg: "rux", Name: "verifHarness_C14_routerRepeat", Quick: map[string]int{"L": 7}, Thorough: map[string]int{"L": 10}, NCfgQ: 28,
+				Covers: []string{"C14 repeat"}},
+		},
+		Assumptions: []string{
+			"one-step formulation: any reachable cache state is its recency-ordered list of n <= cap distinct keys; it is constructed with the real Set from a fresh cache, then one operation with a key that may alias any stored key is compared with a slice model; the post-state check re-establishes the representation invariant, so histories of any length are covered for capacities 0..3",
+			"container/list is interpreted from its own source",
+			"Has is specified as refreshing recency (it is implemented by Get)",
+		},
+		Bounds:     map[string]string{"cap": "capacity 0..3, n = 0..cap entries", "keys": "1-byte symbolic keys (aliasing decided by the solver)", "L": "router clause: path length 1..7 / 1..10 over the 26 dynamic patterns of C02"},
+		Symbolic:   []string{"all keys", "request path bytes"},
+		Enumerated: []string{"capacity", "fill level", "operation", "pattern"},
+	},
 }
